@@ -81,8 +81,11 @@ def frames_from_stack(ns, start_depth=2):
     out, seen = [], set()
     f = sys._getframe(start_depth)
     running = []
-    while f is not None and f.f_code.co_flags & 0x20 and "tpmstream" in f.f_code.co_filename:  # CO_GENERATOR
-        running.append(f)
+    # everything between the byte source and the harness is the decoder: generator frames (CO_GENERATOR) are the running
+    # coroutines; plain function / method frames in between (e.g. a look-ahead helper object) are passed over
+    while f is not None and "/vlib/" not in f.f_code.co_filename.replace("\\", "/"):
+        if f.f_code.co_flags & 0x20:
+            running.append(f)
         f = f.f_back
     if not running:
         return None
